@@ -26,6 +26,6 @@ for seed in a.seeds.split(","):
         if r.returncode:
             bad += 1
             print(r.stdout[-1500:], r.stderr[-1500:], flush=True)
-        if evd:
-            shutil.rmtree(evd, ignore_errors=True)
+        if evd and not r.returncode:
+            shutil.rmtree(evd, ignore_errors=True)  # (kept on failure: it holds the replay file)
 sys.exit(1 if bad else 0)
